@@ -23,8 +23,30 @@ CACHE = os.path.join(ROOT, ".cache")
 REPO = os.environ.get("VERIF_REPO", "/repo")
 NPROC = 16
 
+TARGET_DIR = os.path.join(CACHE, "target")
+if os.path.realpath(REPO) != "/repo":
+    # Alternative workspace: checks run against a scratch copy of the repository (used while validating
+    # seeded changes) get their own copy of coq/ (gen differs) and of the harness crate (path dependency
+    # differs) so that they never disturb runs against /repo itself.
+    _alt = os.path.join(CACHE, "alt", hashlib.sha256(os.path.realpath(REPO).encode()).hexdigest()[:12])
+    os.makedirs(_alt, exist_ok=True)
+    subprocess.run(["rsync", "-a", "--delete", "--exclude", "Makefile*", "--exclude", ".Makefile.d", "--exclude", "_CoqProject",
+                    COQ + "/", os.path.join(_alt, "coq") + "/"], check=True)
+    subprocess.run(["rsync", "-a", "--delete", "--exclude", "target", HARNESS + "/", os.path.join(_alt, "harness") + "/"], check=True)
+    _ct = os.path.join(_alt, "harness", "Cargo.toml")
+    _txt = open(_ct).read().replace('path = "/repo"', 'path = "%s"' % os.path.realpath(REPO))
+    open(_ct, "w").write(_txt)
+    _cc = os.path.join(_alt, "harness", ".cargo", "config.toml")
+    open(_cc, "w").write(open(_cc).read().replace(TARGET_DIR, os.path.join(_alt, "target")))
+    COQ = os.path.join(_alt, "coq")
+    HARNESS = os.path.join(_alt, "harness")
+    TARGET_DIR = os.path.join(_alt, "target")
+    ALT = _alt
+else:
+    ALT = None
+
 ENV = dict(os.environ)
-ENV.update({"CARGO_NET_OFFLINE": "true", "CARGO_TARGET_DIR": os.path.join(CACHE, "target")})
+ENV.update({"CARGO_NET_OFFLINE": "true", "CARGO_TARGET_DIR": TARGET_DIR})
 
 # Axioms of the Coq standard library that theorems over Reals / Flocq may depend on (DESIGN.md section 5).
 AXIOM_ALLOW = {
@@ -71,7 +93,7 @@ def sh2(cmd, timeout=1200, cwd=None, env=None):
 class Lock:
     def __init__(self, name):
         os.makedirs(CACHE, exist_ok=True)
-        self.path = os.path.join(CACHE, name + ".lock")
+        self.path = os.path.join(ALT or CACHE, name + ".lock")
 
     def __enter__(self):
         self.f = open(self.path, "w")
@@ -256,8 +278,8 @@ def theorem_statements(props_file):
 
 def print_assumptions(module, names, timeout=600):
     """Returns dict name -> list of axioms ([] = closed under the global context), or None on failure."""
-    os.makedirs(os.path.join(CACHE, "audit"), exist_ok=True)
-    f = os.path.join(CACHE, "audit", "Audit_%s.v" % module.replace(".", "_"))
+    os.makedirs(os.path.join(ALT or CACHE, "audit"), exist_ok=True)
+    f = os.path.join(ALT or CACHE, "audit", "Audit_%s.v" % module.replace(".", "_"))
     with open(f, "w") as fh:
         fh.write("Require Import %s.\n" % module)
         for n in names:
@@ -285,7 +307,7 @@ def coq_eval(preamble, exprs, shard_size=250, timeout=900, tag="cases"):
     Returns list of result strings (whitespace-normalised, type annotation stripped), or raises RuntimeError.
     Implementation: shards into files, each `Eval vm_compute in (<marker>, term)`, runs up to NPROC coqc.
     """
-    d = os.path.join(CACHE, "eval", "%s_%d" % (tag, os.getpid()))
+    d = os.path.join(ALT or CACHE, "eval", "%s_%d" % (tag, os.getpid()))
     os.makedirs(d, exist_ok=True)
     shards = [exprs[i:i + shard_size] for i in range(0, len(exprs), shard_size)]
     procs = []
@@ -446,7 +468,7 @@ def harness_build(bins=None, timeout=1800):
 
 
 def harness_bin(name):
-    return os.path.join(CACHE, "target", "release", name)
+    return os.path.join(TARGET_DIR, "release", name)
 
 
 def harness_run(name, args, timeout=1200, input=None):
@@ -468,10 +490,11 @@ class Check:
         self.coverage = {}
         self.assumptions = []
         self.broken = []          # names of proofs / correspondences that no longer check
+        self.out_root = ALT or ROOT     # evidence/replay of alternative-workspace runs never overwrite the real ones
         kf = os.path.join(ROOT, "known_findings.json")
         self.known = json.load(open(kf)) if os.path.exists(kf) else []
-        os.makedirs(os.path.join(ROOT, "replay", pid), exist_ok=True)
-        os.makedirs(os.path.join(ROOT, "evidence"), exist_ok=True)
+        os.makedirs(os.path.join(self.out_root, "replay", pid), exist_ok=True)
+        os.makedirs(os.path.join(self.out_root, "evidence"), exist_ok=True)
 
     def log(self, *a):
         print("[%s %6.1fs]" % (self.pid, time.time() - self.t0), *a, flush=True)
@@ -491,7 +514,7 @@ class Check:
                 print("KNOWN-FINDING: property=%s %s" % (self.pid, e.get("what", what)), flush=True)
             return
         n = len(self.violations)
-        path = os.path.join(ROOT, "replay", self.pid, "%s_%d.json" % (self.tier, n))
+        path = os.path.join(self.out_root, "replay", self.pid, "%s_%d.json" % (self.tier, n))
         replay_obj = dict(replay_obj)
         replay_obj.setdefault("property", self.pid)
         replay_obj.setdefault("what", what)
@@ -519,7 +542,7 @@ class Check:
         }
         if self.known_hits:
             ev["known_findings_hit"] = self.known_hits
-        with open(os.path.join(ROOT, "evidence", "%s.json" % self.pid), "w") as fh:
+        with open(os.path.join(self.out_root, "evidence", "%s.json" % self.pid), "w") as fh:
             json.dump(ev, fh, indent=1, default=str)
         self.log("done: violations=%d known=%d wall=%.1fs" % (len(self.violations), len(self.known_hits), time.time() - self.t0))
         return 1 if self.violations else 0
